@@ -34,7 +34,7 @@ theorem checkUnique_err (seen : List Text) (ms : List Method) (e : BuildErr)
 theorem allClassKeys_cons (tns : Text) (m : Method) (ms : List Method) :
     allClassKeys tns (m :: ms) = (if m.aux then [] else classKeys tns m) ++ allClassKeys tns ms := by
   unfold allClassKeys
-  by_cases h : m.aux <;> simp [h, List.filter_cons]
+  by_cases h : m.aux <;> simp [h]
 
 theorem addClasses_ok_iff (tns : Text) (seen : List Text) (ms : List Method) :
     (∃ s, addClasses tns seen ms = .ok s) ↔
@@ -82,7 +82,7 @@ theorem rget_rset (r : Routes) (k k' : Text) (v : List Method) :
     · subst h; simp only [if_true, rget]; split <;> rfl
     · simp only [h, if_false, rget, ih]
       by_cases h2 : k0 = k'
-      · subst h2; simp [h]; intro h3; exact absurd h3.symm h
+      · subst h2; simp; intro h3; exact absurd h3.symm h
       · simp [h2]
 
 
@@ -558,6 +558,43 @@ theorem route_fids_nodup {tns : Text} {ms : List Method} (hn : (ms.map (·.fid))
     have := map_inj_of_nodup (·.fid) ms hn a ha'.1 b hb'.1 hxy
     subst this
     rw [ha'.2.1] at hb'; cases hb'.2.1
+
+
+
+theorem nodup_map_ne {α β} (f : α → β) (a b : α) (l1 l2 l3 : List α)
+    (h : ((l1 ++ a :: l2 ++ b :: l3).map f).Nodup) : f a ≠ f b := by
+  intro e
+  simp only [List.append_assoc, List.map_append, List.map_cons, List.cons_append] at h
+  rw [List.nodup_append] at h
+  have h2 := h.2.1
+  rw [List.nodup_cons] at h2
+  apply h2.1
+  simp [e]
+
+theorem splitBrace_plain : ∀ (s : Text), s.head? ≠ some '{' → splitBrace s = (none, s)
+  | [], _ => rfl
+  | c :: r, h => by
+    have hc : c ≠ '{' := by simpa using h
+    unfold splitBrace
+    split
+    · rename_i r' heq; cases heq; exact absurd rfl hc
+    · rfl
+
+theorem takeWhile_ne_append (c : Char) (xs l : Text) (hx : c ∉ xs) :
+    (xs ++ c :: l).takeWhile (· ≠ c) = xs ∧ (xs ++ c :: l).dropWhile (· ≠ c) = c :: l := by
+  induction xs with
+  | nil => simp
+  | cons x xs ih =>
+    simp at hx
+    have hx1 : x ≠ c := fun e => hx.1 e.symm
+    have := ih (fun h => hx.2 h)
+    simp [hx1]
+    simpa using this
+
+theorem splitBrace_qname (ns l : Text) (h : '}' ∉ ns) : splitBrace (qname ns l) = (some ns, l) := by
+  have ht := takeWhile_ne_append '}' ns l h
+  show (some ((ns ++ '}' :: l).takeWhile (· ≠ '}')), ((ns ++ '}' :: l).dropWhile (· ≠ '}')).drop 1) = _
+  rw [ht.1, ht.2]; rfl
 
 
 end SpyneModel.Dispatch
